@@ -79,9 +79,12 @@ def handleHttp : Handler := fun inp out => do
     | _ => "other"
   let family : String :=
     if isCursor && cls = "panic" then s!"C38:cursor:panic:{cursorKind}"
+    else if isCursor && is5xx && isV1 then "C38:v1-read-errors:5xx"   -- the store's ErrInvalidQuery again
     else if isCursor && is5xx then "C38:cursor:5xx"
     else if containsSub route "/logs/import" then s!"C38:logs-import:{cls}:{mc}"
     else if isV1 && is5xx && (readErr || v1FilterParam) then "C38:v1-read-errors:5xx"
+    else if isV1 && cls = "accepted-invalid" && containsSub route "HEAD /{ledger}/transactions" && (mc = "query:pit" || mc = "query:oot") then
+      "C38:v1-count-transactions:bad-date-accepted"
     else if is5xx && mc = "query:filter:metadata-bracket" then "C38:filter-metadata-bracket:5xx"
     else if is5xx && mc = "query:sort" then "C38:sort-unknown-column:5xx"
     else if !isV1 && is5xx && readErr && (containsSub route "/accounts/{address}" || containsSub route "/transactions/{id}") then
